@@ -29,7 +29,9 @@ LEVEL_TEXT = (
 )
 LEVEL_NOTE = (
     "Trusted: the closed forms themselves (derived in DESIGN.md 5/C09; reproduce all five tables), linalg.vector_dot/@ as matrix product, "
-    "solve(M, R) = M^-1 R, qr_r as triangularisation.  Not decided: eta thresholds, composition h1 then h2, cholesky_hilbert's recurrence values, rounding."
+    "solve(M, R) = M^-1 R, qr_r as triangularisation.  Not decided: eta thresholds, rounding, and the values of the two tables that system_matrices_1d_iwp computes at trace time by numeric code "
+    "(the flipped Pascal matrix from factorials and the Cholesky factor of the Hilbert matrix from Kahan's recurrence followed by a QR step): deciding them would mean executing that code. "
+    "Composition over h1 then h2 is a consequence of exactness per step (semigroup property of the SDE solution) and is not checked separately."
 )
 
 # --------------------------------------------------------------------------- closed forms
